@@ -62,6 +62,8 @@ type smcWorld struct {
 	outbox   []smcOut
 	outSeq   int
 	delivered []smcOut // what was delivered, with the delivery instant in .at
+	stuck     bool      // the clock could not be advanced (a goroutine is blocked on a library lock)
+	shared    *smcWorld // a redial shares the Client (and its application handler) with this world
 }
 
 func (w *smcWorld) now() time.Duration { return time.Since(w.start) }
@@ -220,7 +222,11 @@ func (w *smcWorld) advance(d time.Duration) {
 		}
 	}
 	if d > 0 {
-		w.e.Quiesce()
+		if !w.e.Quiesce() {
+			// somebody waits on a lock held across a stalled write: fake time cannot move
+			w.stuck = true
+			return
+		}
 		w.e.Advance(d)
 	}
 	// library timers due at this instant act first, then the peer's deliveries
@@ -685,10 +691,11 @@ func smcAfter(w *smcWorld, s hsScript) bool {
 }
 
 func (w *smcWorld) teardown() {
+	w.sc.Resume()
 	w.sc.EndRead(io.EOF, false)
-	w.e.Quiesce()
+	durable := w.e.Quiesce()
 	// let a watchdog goroutine notice and leave
-	if w.watchdog {
+	if w.watchdog && durable {
 		w.e.Advance(w.W + w.I*time.Duration(w.R+2))
 		w.e.Quiesce()
 	}
@@ -697,13 +704,36 @@ func (w *smcWorld) teardown() {
 func c12Run(e *Env) {
 	e.TrustWait = true // the only goroutine ever held inside the library is a stalled CER write, which nobody contends with
 	w := newSmcWorld(e, e.T.Chance(1, 4))
-	defer w.teardown()
 	s := drawHsScript(w)
+	redial := e.T.Chance(1, 3)
 	e.NonTrivial()
-	if !smcHandshake(w, s) {
+	ok := smcHandshake(w, s)
+	if ok {
+		ok = smcAfter(w, s)
+	}
+	w.teardown()
+	if e.Failed() || !redial {
 		return
 	}
-	smcAfter(w, s)
+	// the same Client dials again (reconnect, or the next peer after a refusal)
+	e.Probe("redial")
+	e.Act("redial", "first dial ok=%v", ok)
+	w2 := w.redial()
+	defer w2.teardown()
+	s2 := hsScript{answerCER: 1, ceaKind: "success", delayClass: "quick", delay: time.Duration(e.T.Draw(3)) * w.I / 4}
+	if e.T.Chance(1, 4) {
+		s2.answerCER = 0 // silence: the second dial must time out like a first one would
+	}
+	smcHandshake(w2, s2)
+}
+
+// redial returns a world for a second connection dialled by the same Client.
+func (w *smcWorld) redial() *smcWorld {
+	w2 := &smcWorld{e: w.e, cli: w.cli, mach: w.mach, R: w.R, I: w.I, W: w.W, watchdog: w.watchdog, cfgAddrs: w.cfgAddrs, advertised: w.advertised}
+	w2.sc = newSimConn(w.e, "cli2", w.sc.LocalAddr(), w.sc.RemoteAddr())
+	w2.start = time.Now()
+	w2.shared = w
+	return w2
 }
 
 // ---------------------------------------------------------------- C13: watchdog (client half)
@@ -784,6 +814,7 @@ func c13Client(e *Env, forC14 bool) {
 		term = []string{"peer-eof", "rst", "local-close"}[t.Draw(3)]
 	}
 	peerDWRLeft := t.Draw(4)
+	appStalled := false
 	type pend struct {
 		req RefMsg
 		at  time.Duration
@@ -872,6 +903,28 @@ func c13Client(e *Env, forC14 bool) {
 				}
 			case "silent":
 				e.Fault("peer-silent")
+				if r == w.R && !appStalled && len(pending) == 0 && t.Chance(1, 2) {
+					// the peer has also stopped reading: an application write on the same
+					// connection stalls after the watchdog's last transmission
+					appStalled = true
+					peerDWRLeft = 0 // nobody else may queue behind the stalled write: a lock wait freezes the fake clock
+					var keep []smcOut
+					for _, o := range w.outbox {
+						if o.what != "peer-dwr" {
+							keep = append(keep, o)
+						}
+					}
+					w.outbox = keep
+					e.TrustWait = false
+					w.sc.ArmWriteFault(&WriteFault{Kind: "stall", After: 5})
+					w.mu.Lock()
+					c := w.conn
+					w.mu.Unlock()
+					app := RefMsg{Cmd: cmdCC, App: 4, Flags: 0x80, HbH: 4242, E2E: 4242, AVPs: []RefAVP{{Code: avpSessionID, Flags: 0x40, Data: []byte("app-write")}}}.Bytes()
+					go func() { c.Write(app) }()
+					e.Quiesce()
+					e.Fault("app-write-stalled")
+				}
 			}
 		}
 		if e.Failed() {
@@ -896,6 +949,12 @@ func c13Client(e *Env, forC14 bool) {
 			step = w.I
 		}
 		w.advance(step) // returns at the next library write or due delivery, whichever is first
+		if w.stuck {
+			break
+		}
+	}
+	if w.stuck && !e.Failed() {
+		e.Fail("C13/silent-peer-not-detected/close-blocked", "the watchdog's budget ran out at %v with an application write stalled on the same connection: the connection was not closed (a goroutine waits on a library lock, fake time cannot advance)", w.now())
 	}
 	if !e.Failed() && len(pending) > 0 && closedAt < 0 {
 		// give outstanding probes one more interval, then they must have been answered
